@@ -225,7 +225,7 @@ def main():
                 'distinct = distinct (declarations, set of instruction kinds used).')
     chk.assumptions = ['30% of the documents carry xml:space attributes (preserve / default), 35% of the cases put part of the declarations into an imported or included module', 'D\' is computed by the harness from the declarations (NameTest priority, last-wins)', 'both sides are run by the library; trees of the outputs are compared']
     chk.ensure('plain', 'xvdrv')
-    n = 4000 if chk.tier == 'quick' else 400000
+    n = 12000 if chk.tier == 'quick' else 400000
     chk.run_cases('c13', 'case', range(n))
     chk.run_cases('c13', 'doc_case', range(n // 4))
     chk.finish(min_nontrivial=100, required_stats=('agree', 'whitespace_nodes_removed', 'with_import', 'with_xml_space', 'document_function_agree'))
